@@ -27,6 +27,10 @@ Three exhaustive families, all on the real uri / nodemaker / unknown modules:
     (error set, no uris) or: no write uri in a deep-immutable context, a write uri only if it
     is verbatim the rw-slot string, and a read uri that is one of the given strings carrying an
     alleged prefix at least as strong as given / as the context demands.
+(d) STORED MARKINGS.  Every slot/prefix arrangement of the future capability strings is linked into a
+    mutable directory (real DirectoryNode pack/unpack over vt/lib_memdir) and listed by another client
+    through the write-cap and the read-cap: the child must not have gained a write uri and its read uri
+    must still carry a marking at least as strong (imm. > ro. > none) as before it was stored.
 """
 from allmydata import uri
 from allmydata.nodemaker import NodeMaker
@@ -389,8 +393,48 @@ def future_arrangements(f):
     return out
 
 
+def check_stored(w, r):
+    """an unknown-format cap carrying an alleged marking, linked into a MUTABLE directory and listed again by
+    another client: the child that comes back must not have gained a write uri and its read uri must carry a
+    marking at least as strong as the one the node had before it was stored"""
+    from ..lib_memdir import World, fire, listing, mkdir
+    where = "stored(rw=%r, ro=%r)" % (w, r)
+    world = World(0, b"c16-stored")
+    c = world.client()
+    try:
+        n = c.create_from_cap(w, r)
+        if not n.is_unknown() or n.error is not None:
+            return [], "stored:skipped"
+        wu, ru = n.get_write_uri(), n.get_readonly_uri()
+        dn = mkdir(c)
+        k, v = fire(dn.set_node("x", n))
+    except Exception as e:  # noqa
+        return [], "stored:refused"
+    if k != "ok":
+        return [], "stored:refused"
+    bad = []
+    for view, cap in (("rw", dn.get_uri()), ("ro", dn.get_readonly_uri())):
+        got = listing(world.client().create_from_cap(cap))
+        if "x" not in got:
+            # (a child that vanishes is C19's business unless its marking is what made it vanish)
+            bad.append(("stored:marked-child-lost", "%s: child missing when the directory is listed via its %s cap" % (where, view)))
+            continue
+        n2 = got["x"][0]
+        wu2, ru2 = n2.get_write_uri(), n2.get_readonly_uri()
+        if wu2 is not None and (wu is None or view == "ro"):
+            bad.append(("stored:write-uri-gained", "%s: listed via %s cap the child has write uri %r (had %r)" % (where, view, wu2, wu)))
+        if ru is not None:
+            have = STRENGTH[L.split_alleged(ru2)[0]] if ru2 is not None else -1
+            if have < STRENGTH[L.split_alleged(ru)[0]]:
+                bad.append(("stored:alleged-marking-weakened", "%s: read uri was %r, after a round trip through a mutable directory (%s cap) it is %r" % (where, ru, view, ru2)))
+    return bad, "stored:ok"
+
+
 def run_case(case):
     t = case["t"]
+    if t == "stored":
+        bad, label = check_stored(case["w"], case["r"])
+        return bad, 1, label
     if t == "chain":
         return check_chain(case["kind"], tuple(case["fields"]))
     if t == "parse":
@@ -446,6 +490,9 @@ def run(tier, seed):
         for (w, r) in future_arrangements(f):
             for deep in (False, True):
                 cases.append({"t": "node", "w": w, "r": r, "deep": deep, "nontrivial": True})
+        for (w, r) in future_arrangements(f):
+            if w or r:
+                cases.append({"t": "stored", "w": w, "r": r, "nontrivial": True})
     res = common.pmap(_chunk, cases)
     for c in (cases[0], cases[len(cases) // 2], cases[-1]):
         res.sample({k: v for k, v in c.items() if k != "nontrivial"})
@@ -457,6 +504,7 @@ def run(tier, seed):
         "chain_caps": res.counts.get("cases:chain", 0),
         "parse_contexts": res.counts.get("cases:parse", 0),
         "node_contexts": res.counts.get("cases:node", 0),
+        "stored_contexts": res.counts.get("cases:stored", 0),
         "distinct_outcomes": len(outcomes),
         "outcomes": outcomes,
         "rule": "all 18 kinds x {00,ff,counting,seed}^2 key/fingerprint values: 10 compositions of get_readonly/get_verify_cap each; every prefix (none/ro./imm./ro.imm./imm.ro.) x deep_immutable through from_string; every slot arrangement x prefix per slot x deep_immutable through NodeMaker.create_from_cap, plus 5 future/malformed strings; non-trivial = chain from a cap that has something to lose (write or read cap), or a context with a prefix / deep_immutable / node construction",
